@@ -163,10 +163,39 @@ def build_harness(name, libdir, kind="asan", extra_srcs=(), extra_flags=()):
 
 # ---------------------------------------------------------------- Lean side
 
-def lake(args, timeout=3600):
+def lake(args, timeout=1500):
+    """lake under the project-wide lock; a build that runs away (time or memory) is killed with its children"""
+    import signal
+    import threading
     with Lock("lake"):
-        p = subprocess.run(["lake"] + args, cwd=LEAN, stdout=subprocess.PIPE, stderr=subprocess.STDOUT, timeout=timeout)
-    return p.returncode, p.stdout.decode(errors="replace")
+        p = subprocess.Popen(["lake"] + args, cwd=LEAN, stdout=subprocess.PIPE, stderr=subprocess.STDOUT, start_new_session=True)
+        stop = threading.Event()
+        killed = []
+
+        def watchdog():
+            t0 = time.time()
+            while not stop.wait(5):
+                over = time.time() - t0 > timeout
+                try:
+                    out = subprocess.run(["ps", "-o", "rss=", "-g", str(p.pid)], stdout=subprocess.PIPE).stdout.decode().split()
+                    rss = sum(int(x) for x in out if x.isdigit())
+                except Exception:
+                    rss = 0
+                if over or rss > 24 * 1024 * 1024:   # 24 GB resident
+                    killed.append("timeout" if over else "memory (%d MB)" % (rss // 1024))
+                    try:
+                        os.killpg(p.pid, signal.SIGKILL)
+                    except Exception:
+                        pass
+                    return
+        th = threading.Thread(target=watchdog, daemon=True)
+        th.start()
+        out, _ = p.communicate()
+        stop.set()
+    txt = out.decode(errors="replace")
+    if killed:
+        return 1, txt + "\nerror: lake build killed by the watchdog: " + killed[0]
+    return p.returncode, txt
 
 
 def lake_env_lean(path, timeout=1800):
